@@ -19,11 +19,11 @@ LEVEL = "translation_validation"
 TECHNIQUE = "trajectory differential (reference Euler interpreter + SD-DSL twin) with a memo-key trace monitor on the generated model"
 RULE = ("generated XMILE structures: 1-3 stocks with 0-3 inflows and 0-3 outflows each, non-negative and bidirectional flows, auxiliaries, "
         "graphical functions in <xscale> and <xpts> form, flow equations incl. unparenthesised chains (a - b + c, a / k * c); every fifth document carries the structure a second time as a named module with other constants and initial values; run specs dt in {1,.5,.25,.125,.1,.05,.2,.3,.01} and reciprocal dt in {3,4,6,7,9,10,11,12,13}, start in {0,1,5,0.5,0.25}, "
-        "4-60 steps; read through equation(name,t) for every grid time and (every 3rd case) through bptk.run_scenarios with a 'source' manager. "
+        "4-60 steps; read through equation(name,t) for every grid time and (every 3rd case) through bptk.run_scenarios with a 'source' manager (base scenario and a scenario whose run specs move the start two steps later). "
         "programs = documents compiled; distinct_nontrivial = distinct (dt, start, #stocks, flow kinds, gf forms) combinations whose stocks "
         "actually move and where a non-negative flow clamps at least once or a stock has >=2 inflows/outflows.")
 ASSUMPTIONS = ["stocks are not declared non-negative (only flows are)", "values compared at 1e-9 relative; memo keys must lie within 1e-9 of a grid point"]
-REQUIRED = {"documents_with_modules": 5, "documents_compiled": 30, "trajectory_cells": 3000, "memo_keys_checked": 3000, "dsl_twin_cells": 1000}
+REQUIRED = {"later_start_scenarios": 8, "documents_with_modules": 5, "documents_compiled": 30, "trajectory_cells": 3000, "memo_keys_checked": 3000, "dsl_twin_cells": 1000}
 BUDGET_S = {"quick": 110, "thorough": 1500}
 
 DTS = [("0.3", None), ("0.2", None), ("1", None), ("0.5", None), ("0.25", None), ("0.125", None), ("0.1", None), ("0.05", None), ("0.2", None), ("0.01", None),
@@ -261,7 +261,43 @@ def run_case(case):
             importlib.invalidate_caches()
             b = bptk()
             try:
-                b.register_scenario_manager({"smX": {"model": "models/%s_b" % mod, "source": src, "scenarios": {"base": {}}}})
+                scen = {"base": {}}
+                late_tab = None
+                if not recip:
+                    # a scenario that starts two steps later than the document says: its stocks start from their initial values THERE
+                    import copy
+                    sp_late = copy.deepcopy(spec)
+                    sp_late["run"]["start"] = str(Fr(spec["run"]["start"]) + 2 * Fr(spec["run"]["dt"])) if "/" not in spec["run"]["start"] else spec["run"]["start"]
+                    from decimal import Decimal
+                    sp_late["run"]["start"] = str(Decimal(spec["run"]["start"]) + 2 * Decimal(spec["run"]["dt"]))
+                    try:
+                        rl = refsd.Ref(sp_late)
+                        late_tab = rl.table()
+                        if rl.min_dist < 1e-6 or rl.n < 1:
+                            late_tab = None
+                    except (X.IllConditioned, RecursionError, ValueError):
+                        late_tab = None
+                    if late_tab is not None:
+                        scen["late"] = {"runspecs": {"starttime": float(Decimal(sp_late["run"]["start"]))}}
+                b.register_scenario_manager({"smX": {"model": "models/%s_b" % mod, "source": src, "scenarios": scen}})
+                if late_tab is not None:
+                    dfl = b.run_scenarios(scenarios=["late"], scenario_managers=["smX"], equations=list(stocks), return_format="dict")
+                    counters["later_start_scenarios"] = counters.get("later_start_scenarios", 0) + 1
+                    for s in stocks:
+                        series = {float(t): float(v) for t, v in dfl["smX"]["late"]["equations"][s].items()}
+                        ts = sorted(series)
+                        if len(ts) != len(rl.times) or any(abs(a - bb) > 1e-9 for a, bb in zip(ts, rl.times)):
+                            w = dict(kind="bptk-grid", scenario="late start", stock=s, got=[ts[0], ts[-1], len(ts)], expected=[rl.times[0], rl.times[-1], len(rl.times)])
+                            break
+                        for k, t in enumerate(ts):
+                            counters["trajectory_cells"] = counters.get("trajectory_cells", 0) + 1
+                            if not X.close(series[t], late_tab[s][k], rel=1e-9, ab=1e-9):
+                                w = dict(kind="value", via="bptk.run_scenarios, scenario with a later start time", element=s, element_kind="stock", t=t, step=k, got=series[t], expected=late_tab[s][k])
+                                break
+                        if w:
+                            break
+                    if w:
+                        raise StopIteration
                 df = b.run_scenarios(scenarios=["base"], scenario_managers=["smX"], equations=list(stocks), return_format="dict")
                 for s in stocks:
                     series = {float(t): float(v) for t, v in df["smX"]["base"]["equations"][s].items()}
@@ -276,6 +312,8 @@ def run_case(case):
                             break
                     if w:
                         break
+            except StopIteration:
+                pass
             except Exception as e:
                 import traceback
                 w = dict(kind="bptk-exception", error=traceback.format_exc()[-500:])
